@@ -409,12 +409,33 @@ pub fn gen_trace(g: &mut Gen, max_packets: usize) -> Vec<(u64, bool)> {
     let n = 1 + g.usize(max_packets);
     let mut t: u64 = if g.chance(0.7) { 0 } else { g.below(5_000_000) };
     let p_sent = *g.pick(&[0.1, 0.5, 0.5, 0.9, 1.0, 0.0]);
-    let style = g.below(7);
+    let style = g.below(9);
     let period = *g.pick(&[20_000_000u64, 60_000_000, 110_000_000, 250_000_000]);
+    // styles 7, 8: clusters of packets a hair apart, spaced around the lengths of
+    // the two sliding windows that derive and enforce the packet rate (100 ms in
+    // parse_trace, 1 s in the bottleneck), so that window edges fall between and
+    // inside clusters
+    let cluster = 1 + g.usize(4) as u64;
+    let intra = *g.pick(&[0u64, 1, 1_000, 1_000_000]);
+    let window = *g.pick(&[100_000_000u64, 100_000_000, 50_000_000, 1_000_000_000, 33_333_333]);
+    let edge = *g.pick(&[0i64, 1, 1_000, -1, -1_000, 1_000_000]);
     let mut v = vec![];
-    for _ in 0..n {
+    for i in 0..n as u64 {
         v.push((t, g.chance(p_sent)));
         let gap = match style {
+            7 | 8 => {
+                if i % cluster != cluster - 1 {
+                    intra
+                } else {
+                    let inter = (window as i64 + edge) as u64;
+                    let inter = inter.saturating_sub((cluster - 1) * intra);
+                    if style == 8 && g.chance(0.2) {
+                        inter / 2
+                    } else {
+                        inter
+                    }
+                }
+            }
             0 => 0,
             1 => *g.pick(&[0, 0, 1, 1000, 1_000_000]),
             2 => g.below(50_000_000),
